@@ -646,11 +646,16 @@ var ErrUnused = errors.New("unused")
 
 var ClockBase = time.Date(2022, 1, 2, 3, 4, 5, 0, time.UTC)
 
+// the logical clock is shared by consecutive schedulers of one execution; ResetClock starts a new execution
+var clock atomic.Int64
+
+func ResetClock() { clock.Store(0) }
+
 func Now() time.Time {
 	s := cur.Load()
 	if s == nil {
 		return time.Now()
 	}
-	s.clock++
-	return ClockBase.Add(time.Duration(s.clock)*time.Second + 123456789)
+	c := clock.Add(1)
+	return ClockBase.Add(time.Duration(c)*time.Second + 123456789)
 }
